@@ -41,6 +41,11 @@ type world struct {
 	stashRcs         []*core.TransactionReceipt // … and their receipts, for re-inclusion in the new fork
 	reincluded       int                        // reverted transactions included again by a later block
 	deployAndReplace int                        // number of (block, contract) pairs deployed and replaced by one diff
+
+	submitSeq uint64             // counter behind freshSubmitHash
+	submitted map[felt.Felt]bool // hashes put into the nodes' submitted-transactions caches
+
+	dumps []pendingDump // database pictures taken after chain operations, waiting for the model's `dump` answers
 }
 
 func newWorld(r *lib.RNG, srcNewState bool, opt lib.GenOptions) (*world, error) {
@@ -48,8 +53,8 @@ func newWorld(r *lib.RNG, srcNewState bool, opt lib.GenOptions) (*world, error) 
 	w := &world{g: g, commitments: map[felt.Felt]*core.BlockCommitments{}, classDefs: map[felt.Felt]core.ClassDefinition{},
 		classPrint: map[string]felt.Felt{}}
 	for _, ns := range []bool{false, true} {
-		bc, _ := lib.NewNode(g.Net, ns)
-		n, err := newRPCNode(bc, ns)
+		bc, kv := lib.NewNode(g.Net, ns)
+		n, err := newRPCNode(bc, kv, ns)
 		if err != nil {
 			return nil, err
 		}
